@@ -413,6 +413,10 @@ class IRGen:
                 rdc = "code_arith" if kind == "code_arith_over_params" else kind
                 if k.p_return_literal_source and self.chance(k.p_return_literal_source):
                     rt["default"], rdc = r.choice(["5", "0.5", "True", "'mnist'"]), "literal_source"
+                    if "typ" in rt:
+                        # a declared return type that fits the literal (a bool-typed return of 'mnist' is no interface)
+                        fit = {"5": "int", "0.5": "float", "True": "bool", "'mnist'": "str"}[rt["default"]]
+                        rt["typ"], rtc = fit, "scalar_" + fit
             if not rt:
                 rt["doc"], rdoc = "the zq_return_type value which is computed", "plain"
             returns = OrderedDict((("return_type", rt),))
